@@ -59,7 +59,8 @@ THEOREMS = [
     "call_footprint_sound", "call_writes_declared", "call_solo_result",
     "calls_noninterference", "multiref_per_call_safe", "multiref_shared_refuted",
     "clone_independent", "clone_keeps_original",
-    "no_class_level_writes", "binding_cells_untouched", "labelled_plan_is_schedule",
+    "no_class_level_writes", "measured_footprint_no_class_level", "binding_cells_untouched",
+    "labelled_plan_is_schedule",
     "clone_lookup_total", "clone_lookup_unguarded_refuted",
 ]
 
@@ -351,9 +352,25 @@ class World(object):
 
         self.EchoTransport = EchoTransport
 
-    def new_client(self, variant="plain"):
+        class PlainTransport(suds.transport.Transport):
+            """A user-written transport: derives from the abstract Transport only,
+            no __deepcopy__ of its own (clone() copies it member-wise)."""
+
+            def open(self, request):
+                raise Exception("C13 harness: no document may be fetched")
+
+            def send(self, request):
+                reply = serve(request.url, request.message)
+                world.log.append((threading.get_ident(), request.url,
+                                  request.headers.get("SOAPAction"), request.message, reply))
+                return suds.transport.Reply(200, {}, reply)
+
+        self.PlainTransport = PlainTransport
+
+    def new_client(self, variant="plain", custom_transport=False):
         """variant: a name in VARIANTS or '+'-joined names (applied in order)."""
-        c = self.sudsutil.client_from_wsdl(WSDL, transport=self.EchoTransport())
+        c = self.sudsutil.client_from_wsdl(
+            WSDL, transport=self.PlainTransport() if custom_transport else self.EchoTransport())
         for v in variant.split("+"):
             if VARIANTS[v]:
                 c.set_options(**VARIANTS[v])
@@ -1695,10 +1712,12 @@ def clone_cases(ck, world, rng, quick):
         a, v, wv = (rng.choice(values) for _ in range(3))
         depth = rng.choice([1, 1, 2, 3])
         hist = []
-        info = {"probe": name, "a": repr(a), "v": repr(v), "w": repr(wv), "depth": depth}
+        custom = (n % 5 == 4) and name != "timeout"      # timeout is an option of the HTTP transports
+        info = {"probe": name, "a": repr(a), "v": repr(v), "w": repr(wv), "depth": depth,
+                "custom_transport": custom}
 
         def body():
-            c = world.new_client(rng.choice(VARIANT_LIST))
+            c = world.new_client(rng.choice(VARIANT_LIST[:6]), custom_transport=custom)
             # a random option history before cloning
             for _ in range(rng.randrange(0, 4)):
                 k, vals = rng.choice(PROBES)
@@ -1714,18 +1733,23 @@ def clone_cases(ck, world, rng, quick):
             return orig
         r = run_impl(body)
         if r[0] != "ok":
-            info.update(what="building a client failed: %s" % r[1], **{"class": "clone-setup"})
+            info.update(what="building a client (or cloning it %d times) failed: %s%s"
+                        % (depth - 1, r[1], "; transport: a plain suds.transport.Transport subclass" if custom else ""),
+                        **{"class": ("clone-custom-transport-recursion" if custom else "clone-fails")
+                           if "Recursion" in r[1] else "clone-setup"})
             cases.append("(mkcl false false false 0 0 0 [])")
             meta.append(info)
             continue
         orig = r[1]
         rc = run_impl(orig.clone)
         ck.seen(("clone", n, name, repr(a), repr(v), repr(wv), depth, tuple(hist)))
-        ck.count("clone-depth-%d" % depth)
+        ck.count("clone-depth-%d%s" % (depth, "-custom-transport" if custom else ""))
         info["history"] = hist
         if rc[0] != "ok":
-            info.update(what="Client.clone() raises %s (option history %r)" % (rc[1], hist),
-                        **{"class": "clone-fails"})
+            info.update(what="Client.clone() raises %s (option history %r%s)"
+                        % (rc[1], hist, "; transport: a plain suds.transport.Transport subclass" if custom else ""),
+                        **{"class": "clone-custom-transport-recursion" if custom and "Recursion" in rc[1]
+                           else "clone-fails"})
             cases.append("(mkcl false false false %s %s %s [])" % (cN(enc[repr(a)]), cN(enc[repr(v)]), cN(enc[repr(wv)])))
             meta.append(info)
             continue
